@@ -1,3 +1,87 @@
-From MW Require Import Num.
-Theorem placeholder : True. Proof. exact I. Qed.
-Print Assumptions placeholder.
+(*  C02 — Linear policies are exact per-arm ridge regressions with the stated bonus.
+   
+    PROVED (for every number structure, feature count d, batch, query size m):
+     * init: A = lambda*I, X'y = 0, beta = A_inv.0;
+     * fit / partial_fit of an arm: A accumulates X'X, X'y accumulates X'y, A_inv is the inverse the model
+       computes for the new A (Gauss-Jordan with pivoting; None = LinAlgError) and beta = A_inv.X'y;
+     * predict_expectations: x.beta (LinGreedy exploit value), x.beta + alpha*sqrt(sum((x.A_inv)*x)) (LinUCB),
+       and for LinTS exactly one multivariate-normal request with mean beta and covariance alpha^2*A_inv and
+       one sample per context row, read out as sum(x * sample) row by row - for every d and m.
+     * REFUTED (finding D2): with the initialisation of the code, A_inv of an arm never observed is lambda*I,
+       not I/lambda - witness lambda = 4 over the rationals.
+    ..._partial: that the Gauss-Jordan result is the two-sided inverse, and the limit alpha -> 0 of the LinTS
+    draw, are not proved (the first is validated by the ridge oracle numpy.linalg.solve on every run). *)
+From Coq Require Import List ZArith Bool Arith QArith Qcanon Permutation.
+From MW Require Import Num Assoc AssocFacts Rng Par CF CFInv CFClean CFForget CFSpec Matrix Lin Warm WarmInv Nbr NbrFacts NbrIndep LshFacts Clu Tree CellFacts Mab FacadeCF FacadeArms MoreFacts NumLaws CFAlg Sim Extra QcInst.
+Import ListNotations.
+
+Theorem C02_init_state :
+  forall (R A G : Type) (N : Num R) (s : (@lin R A G)) (d : nat) (m : (@ridge R G)),
+  let m' := ridge_init N s d m in
+  r_A m' = mscale N (l_l2 s) (identity N d) /\
+  r_Xty m' = zeros N d /\
+  r_Ainv m' =
+  (if l_kf_ainv s
+   then mscale N (l_l2 s) (identity N d)
+   else mscale N (div N (one N) (l_l2 s)) (identity N d)) /\
+  r_beta m' = mat_vec N (r_Ainv m') (zeros N d).
+Proof. exact @ridge_init_state. Qed.
+Print Assumptions C02_init_state.
+
+Theorem C02_fit_accumulates_normal_equations_partial :
+  forall (R G : Type) (N : Num R) (d : nat) (m m' : (@ridge R G)) (x : (@mat R)) (y : (@vec R)),
+  r_scaler m = None ->
+  ridge_fit N d m x y = Some m' ->
+  r_A m' = madd N (r_A m) (xtx N d x) /\
+  r_Xty m' = vadd N (r_Xty m) (xty N d x y) /\
+  inverse N d (r_A m') = Some (r_Ainv m') /\ r_beta m' = mat_vec N (r_Ainv m') (r_Xty m').
+Proof. exact @ridge_fit_normal_equations. Qed.
+Print Assumptions C02_fit_accumulates_normal_equations_partial.
+
+Theorem C02_lingreedy_expectation :
+  forall (R A G : Type) (N : Num R) (RG : RngOps R G) (s : (@lin R A G)) (m : (@ridge R G)) (g : G) (x : (@mat R)),
+  l_kind s = RRidge ->
+  r_scaler m = None ->
+  ridge_predict N RG s m g x = (map (fun row : (@vec R) => dot N row (r_beta m)) x, m, g).
+Proof. exact @lingreedy_expectation. Qed.
+Print Assumptions C02_lingreedy_expectation.
+
+Theorem C02_linucb_expectation :
+  forall (R A G : Type) (N : Num R) (RG : RngOps R G) (s : (@lin R A G)) (m : (@ridge R G)) (g : G) (x : (@mat R)),
+  l_kind s = RUcb ->
+  r_scaler m = None ->
+  ridge_predict N RG s m g x =
+  (map
+     (fun row : (@vec R) =>
+      add N (dot N row (r_beta m))
+        (mul N (l_alpha s)
+           (sqrt N
+              (nsum N
+                 (map2 (mul N) (map (fun c : (@vec R) => dot N row c) (transpose N (length row) (r_Ainv m)))
+                    row))))) x, m, g).
+Proof. exact @linucb_expectation. Qed.
+Print Assumptions C02_linucb_expectation.
+
+Theorem C02_lints_request_and_linear_readout_partial :
+  forall (R A G : Type) (N : Num R) (RG : RngOps R G) (s : (@lin R A G)) (m : (@ridge R G)) (g gm : G) (x : (@mat R)),
+  l_kind s = RTs ->
+  r_scaler m = None ->
+  r_rng m = Some gm ->
+  let cov := mscale N (mul N (l_alpha s) (l_alpha s)) (r_Ainv m) in
+  let
+  '(smp, _) := draw_r RG gm (RqMvn (r_beta m) cov (length x)) in
+   fst (fst (ridge_predict N RG s m g x)) =
+   map2 (fun row b : list R => nsum N (map2 (mul N) row b)) x
+     (chunk_rows (length x) (length (r_beta m)) smp).
+Proof. exact @lints_request_and_readout. Qed.
+Print Assumptions C02_lints_request_and_linear_readout_partial.
+
+(* finding D2, stated about the model that is faithful to the code: the covariance of a never-observed arm *)
+Definition q (z : Z) : Qc := Q2Qc (inject_Z z).
+Definition ex_lin (kf : bool) : @lin Qc Z nat := lin_init QcNum RUcb (q 1) (q 0) (q 4) false kf [1]%Z.
+Theorem C02_unobserved_arm_covariance_refuted :
+  r_Ainv (ridge_init QcNum (ex_lin true) 1 ridge_new) <> r_Ainv (ridge_init QcNum (ex_lin false) 1 ridge_new) /\
+  r_Ainv (ridge_init QcNum (ex_lin true) 1 ridge_new) = [[q 4]].
+Proof. split; [vm_compute; discriminate | vm_compute; reflexivity]. Qed.
+Print Assumptions C02_unobserved_arm_covariance_refuted.
+
